@@ -460,6 +460,12 @@ class Unit:
             if not KEEP_ATTR.match(a):
                 self.dropped.add(re.sub(r'\(.*', '(..)]', a) if '(' in a else a)
         text = self._apply_rewrites(e, orig_text)
+        mut = getattr(self, 'mutation', None)
+        if mut and mut[0] == e.qualname:
+            if text.count(mut[1]) != 1:
+                raise Undecided('mutant anchor %r occurs %d times in %s' % (mut[1], text.count(mut[1]), e.qualname))
+            text = text.replace(mut[1], mut[2])
+            self.mutation_applied = True
         if e.d1:
             text, n1 = split_or_guards(text)
             if n1:
@@ -490,6 +496,18 @@ class Unit:
                 ins.append((kwoff, broff, kw, itname, spec))
             if len(loops) != getattr(e, 'expect_loops', len(loops)):
                 raise Undecided('loop count of %s changed' % e.qualname)
+            if getattr(self, 'tag_loops', False):
+                tagp = ','.join(sorted(e.props or self.props))
+                def _tag(spec_text):
+                    outl = []
+                    for ln_ in spec_text.split('\n'):
+                        st = ln_.strip()
+                        if st and '//@' not in ln_ and not st.startswith('decreases') and st not in ('invariant', 'ensures', 'invariant_except_break') \
+                                and not st.startswith('//'):
+                            ln_ = ln_ + '    //@%s:loop-invariant' % tagp
+                        outl.append(ln_)
+                    return '\n'.join(outl)
+                ins = [(a, b, c, d, _tag(sp)) for (a, b, c, d, sp) in ins]
             for kwoff, broff, kw, itname, spec in sorted(ins, key=lambda t: -t[1]):
                 lg = ('\n' + _indent(e.loop_ghost, 12)) if e.loop_ghost else ''
                 body = body[:broff] + '\n' + _indent(spec, 8) + '\n    {' + lg + body[broff + 1:]
